@@ -289,7 +289,9 @@ func (self *Analyzer) analyzeModule(moduleName string, module pAst.Program, main
 
 	// Detect any unused singletons.
 	for singletonName, singleton := range self.currentModule.Singletons {
-		if !singleton.Used {
+		// A singleton whose type could not be resolved already got an error; an unknown type has no position
+		// which this warning could point to.
+		if !singleton.Used && singleton.Type.Kind() != ast.UnknownTypeKind {
 			self.warn(
 				fmt.Sprintf("Singleton '%s' is never used", singletonName),
 				[]string{fmt.Sprintf(
